@@ -119,7 +119,7 @@ def scn(params):
 
         frag0 = t.neg[0]["frag"] if t.neg else 100
         bits0 = {5: 5, 6: 6, 26: 6, 7: 7}.get(t.neg[0]["enc"] if t.neg else 5, 5)
-        upcap0 = max(1, ((cfg["M"] - len(sim.domain) - 16) * bits0) // 8)
+        upcap0 = max(1, ((min(cfg["M"], 255) - len(sim.domain) - 16) * bits0) // 8)
 
         def offer(tt, side):
             fr = tunnelscn.pick_frame(t, rng, side, (params["idx"] << 20) | ident[0], 0,
